@@ -510,7 +510,12 @@ func runMesh(c *Ctx, im *Impl, cf *CaseFile, t *topo, perSender int, bigBudget *
 				default:
 					p = sr.Bytes(8 + sr.Intn(200))
 				}
+				sent := append([]byte{}, p...)
 				nw, err := l.pc.WriteTo(p, mesh.Nodes[l.node].NewAddr(addrNode, toSvc))
+				for j := range p { // the caller owns its buffer again once WriteTo has returned
+					p[j] ^= 0xa5
+				}
+				p = sent
 				if err == nil && nw != len(p) {
 					gViolate(fmt.Sprintf("WriteTo of %d bytes returns %d", len(p), nw), "mesh-writeto-count")
 				}
